@@ -10,7 +10,7 @@
 (* parallel displacements for the composite candidates.                    *)
 (***************************************************************************)
 EXTENDS G3DBodies, TLC, Json
-CONSTANTS S, BODIES, KC, KX, B, SEED, NSHARD, NSHARDP
+CONSTANTS S, BODIES, KC, KX, B, SEED, NSHARD, NSHARDP, GENK, NGEN
 VARIABLES ph, c, x, r
 vars == <<ph, c, x, r>>
 
@@ -25,7 +25,7 @@ ScaleObj(o) == CASE o.k = "Segment" -> MkSegment(LP(Scale(S, XYZ(o.a))), LP(Scal
                  [] o.k \in {"Line", "HalfLine"} -> [o EXCEPT !.p = LP(Scale(S, XYZ(o.p)))]
                  [] o.k = "Plane" -> [o EXCEPT !.p = LP(Scale(S, XYZ(o.p)))]
 Containers == { ScaleObj(o) : o \in UNION { FlatObjs(k, {Zero3}, B) : k \in KC \cap FlatKinds } }
-              \cup { Body(nm, S) : nm \in BODIES }
+              \cup { Body(nm, S) : nm \in BODIES } \cup GenHullSample(GENK, 2, S, SEED, NGEN)
 Anchor(o) == IF o.k \in BodyKinds THEN Vertices(o)
              ELSE IF o.k = "Segment" THEN {o.a, o.b} ELSE {o.p, HTrans(o.p, Scale(S, IF o.k = "Plane" THEN Perp1(o.n) ELSE o.u))}
 Pts == BBoxPts(Anchor(c), 1)
